@@ -84,7 +84,7 @@ def fn_table(text):
 
 _DEFAULT_KIND = [
     (re.compile(r'possible arithmetic (underflow|overflow)|possible division by zero|index out of bounds|unwrap|recommendation not met'), 'shape'),
-    (re.compile(r'precondition not satisfied'), 'shape'),
+    (re.compile(r'precondition not satisfied|precondition not met|requires not satisfied'), 'shape'),
     (re.compile(r'postcondition not satisfied|assertion failed|invariant not satisfied|decreases not satisfied|loop invariant'), 'value'),
 ]
 _UNDECIDED = re.compile(r'rlimit|resource limit|timed? ?out|could not|unknown|incomplete|not supported|does not (yet )?support|unsupported|panicked|internal error', re.I)
@@ -192,7 +192,7 @@ def classify(res, text, fns, ins_lines=()):
             if cand:
                 break
         dg.fn = cand
-        if not kinds and prim and prim[0]['line_start'] in ins_lines and 'precondition' in msg:
+        if not kinds and prim and prim[0]['line_start'] in ins_lines and ('precondition' in msg or 'requires not satisfied' in msg):
             kinds = ['value']     # a lemma call / ghost precondition inside inserted proof text
         if not kinds:
             for rx, k in _DEFAULT_KIND:
